@@ -428,7 +428,8 @@ def main():
             log("  " + traceback.format_exc().replace("\n", " | ")[-600:])
             harness_fault = True
 
-    for (oracle, sig), vs in classes.items():
+    # the most frequent classes first (the robust signal is what gets minimised and shown); ties in name order
+    for (oracle, sig), vs in sorted(classes.items(), key=lambda kv: (-len(kv[1]), kv[0])):
         def _one_class(oracle=oracle, sig=sig, vs=vs):
             nonlocal harness_fault
             k = is_known(oracle, sig)
